@@ -82,6 +82,9 @@ type workerReq struct {
 type workerResp struct {
 	Idx int  `json:"idx"`
 	Rec *Rec `json:"rec"`
+	// Retire asks the driver to end this worker process after the case: a call of
+	// the case never returns, its goroutine was abandoned
+	Retire bool `json:"retire,omitempty"`
 }
 
 // workerMain: args = prop tier seed. Reads case indices from stdin, writes one
@@ -108,9 +111,9 @@ func workerMain(args []string) {
 		c := cases[req.Idx]
 		rec := NewRec(ctx, c.ID)
 		fmt.Fprintf(os.Stderr, "@@case-start %d %s\n", req.Idx, c.ID)
-		c.Run(rec)
+		hung := runCaseLive(c, rec)
 		fmt.Fprintf(os.Stderr, "@@case-done %d\n", req.Idx)
-		b, err := json.Marshal(workerResp{Idx: req.Idx, Rec: rec})
+		b, err := json.Marshal(workerResp{Idx: req.Idx, Rec: rec, Retire: hung})
 		if err != nil {
 			fmt.Fprintln(os.Stderr, "worker: cannot marshal record:", err)
 			os.Exit(3)
@@ -118,6 +121,72 @@ func workerMain(args []string) {
 		out.Write(b)
 		out.WriteByte('\n')
 		out.Flush()
+	}
+}
+
+// runCaseLive runs the case in a goroutine of its own and looks at the state of
+// the process every 2*LiveTrigger: when the goroutine of the case is inside
+// llir/llvm waiting for another goroutine (a lock, a channel, a wait group),
+// unchanged between two looks two seconds apart, and no other goroutine inside
+// the library is able to run, the call the case made will never return. That is
+// reported as a violation with the stack as witness, the goroutine is abandoned
+// and the worker asks to be retired. Every other state is waited for (the
+// driver's case watchdog, whose firing is inconclusive, bounds that). Cases that
+// start goroutines of their own and wait for them outside the library (C13,
+// fw.GuardLive in C19) are not decided here: their own monitors are.
+func runCaseLive(c Case, rec *Rec) (hung bool) {
+	done := make(chan struct{})
+	gidc := make(chan string, 1)
+	go func() {
+		defer close(done)
+		buf := make([]byte, 64)
+		buf = buf[:runtime.Stack(buf, false)]
+		gidc <- strings.Fields(string(buf))[1]
+		c.Run(rec)
+	}()
+	gid := <-gidc
+	look := func() (string, bool) {
+		buf := make([]byte, 8<<20)
+		buf = buf[:runtime.Stack(buf, true)]
+		mine, othersFree := "", false
+		for _, g := range strings.Split(string(buf), "\n\n") {
+			head := g
+			if i := strings.Index(g, "\n"); i >= 0 {
+				head = g[:i]
+			}
+			inLib := strings.Contains(g, "github.com/llir/llvm/")
+			switch {
+			case strings.HasPrefix(head, "goroutine "+gid+" ["):
+				if blockedInLib(g) {
+					mine = g[len(head):]
+				}
+			case inLib && !blockedInLib(g):
+				othersFree = true
+			}
+		}
+		return mine, mine != "" && !othersFree
+	}
+	for {
+		select {
+		case <-done:
+			return false
+		case <-time.After(2 * LiveTrigger):
+			a, okA := look()
+			if !okA {
+				continue
+			}
+			select {
+			case <-done:
+				return false
+			case <-time.After(2 * time.Second):
+			}
+			if b, okB := look(); okB && a == b {
+				rec.Violate(Violation{Key: "call-never-returns/" + c.ID,
+					What:     "a call into llir/llvm made by this case never returns: its goroutine waits inside the library for another goroutine (a lock, a channel or a wait group) and no goroutine inside the library is able to run",
+					Observed: Trunc(a, 4000)})
+				return true
+			}
+		}
 	}
 }
 
@@ -420,9 +489,10 @@ func parentMain(chk *Check, tier string, seed int64, replay string) int {
 					return
 				}
 				resp.Rec.caseID = cid
-				if chk.FreshProcess {
+				if chk.FreshProcess || resp.Retire {
 					// the race detector reports each stack pair once per process: a fresh
-					// process per case keeps one case from masking another
+					// process per case keeps one case from masking another (and a worker that
+					// abandoned a goroutine in a call that never returns is not used again)
 					w.stop()
 				}
 				races := w.raceReports()
@@ -431,7 +501,7 @@ func parentMain(chk *Check, tier string, seed int64, replay string) int {
 				merged.Merge(resp.Rec)
 				addRaces(merged, chk, tier, seed, cid, races)
 				mu.Unlock()
-				if chk.FreshProcess {
+				if chk.FreshProcess || resp.Retire {
 					w = nil
 				}
 			}
